@@ -1,11 +1,13 @@
 /-
   C12 — at most one TCP connection or connection attempt to the peer at any time.
-  Proved here, for every event and every state: every BGP message the agent writes goes to the connection its
-  state machine tracks (`FSM.protocol`).  The "at most one live connection" invariant itself does NOT hold of the
-  pinned code (three recorded known findings with their witnesses below: the connector returned by connectTCP
-  is never kept, so nothing can abort a pending attempt); for every history that avoids exactly those three
-  situations it is proved at the end of this file (`C12_at_most_one_calm`: at most one live connection, and every
-  open connection is the tracked one - none is left open and unreferenced).
+  Proved here: (1) for every event and every state, every BGP message the agent writes goes to the connection its
+  state machine tracks (`FSM.protocol`); (2) `C12_at_most_one`: in EVERY state reachable after the agent's start - any
+  peer behaviour, any timer order, any operator stop/start, connect-retry times below or above the TCP timeout - at
+  most one connection is live (attempt in flight or open), every open connection is the tracked one (none is left open
+  and unreferenced), and the attempt in flight is the one the peering remembers (so that it can give it up).
+  (2) became true with the repair recorded as `fixed: property=C12 …` (the peering now keeps the connector of the
+  attempt in flight and gives it up before starting another one and at manual stop); the three histories that were
+  known findings before the repair are kept below as regression theorems.
 -/
 import Yabgp.Props.C18
 import Yabgp.Lemmas.OutsExt
@@ -149,11 +151,15 @@ theorem wt_drain (i : Nat) : ∀ (f : Nat) (s : Sess) (buf : Bytes), WT s (drain
     | none => exact wt_parseBuffer U s i buf
     | some rest => exact (wt_parseBuffer U s i buf).trans (ih _ rest)
 
+theorem wt_abortPending (s : Sess) : WT s s.abortPending := wt_same (by simp) (by simp)
+theorem wt_withPending (s : Sess) (v : Option Nat) : WT s (s.withPending v) := wt_same rfl rfl
+
 theorem wt_connectTcp (s : Sess) : WT s s.connectTcp := by
   unfold connectTcp; split
-  · exact (wt_same rfl rfl : WT s (s.withConns (s.conns ++ [({} : Conn)]))).trans
-      (wt_emit _ (.connect s.conns.length) (by intro c b h; cases h))
-  · exact WT.refl s
+  · exact (((wt_abortPending s).trans
+      (wt_same rfl rfl : WT s.abortPending (s.abortPending.withConns (s.abortPending.conns ++ [({} : Conn)])))).trans
+      (wt_emit _ (.connect s.abortPending.conns.length) (by intro c b h; cases h))).trans (wt_withPending _ _)
+  · exact wt_abortPending s
 
 theorem wt_autoStart (s : Sess) (b : Bool) : WT s (s.autoStart b) := by
   unfold autoStart
@@ -226,8 +232,8 @@ theorem wt_manualStop (s : Sess) : WT s s.manualStop := by
     split
     · exact wt_sendNotification s _ _ _
     · exact WT.refl s
-  exact (((((h1.trans (wt_withTm _ _)).trans (wt_closeConn _)).trans (wt_withRetryCounter _ _)).trans (wt_withAllow _ _)).trans
-    (wt_setSt _ _)).trans (wt_emit _ .retStop (by intro c b h; cases h))
+  exact ((((((h1.trans (wt_withTm _ _)).trans (wt_closeConn _)).trans (wt_withRetryCounter _ _)).trans (wt_withAllow _ _)).trans
+    (wt_setSt _ _)).trans (wt_abortPending _)).trans (wt_emit _ .retStop (by intro c b h; cases h))
 
 theorem wt_manualStart (s : Sess) : WT s s.manualStart := by
   unfold manualStart
@@ -309,8 +315,13 @@ theorem C12_writes_to_tracked (w : World) (e : Ev) (c : Nat) (b : Bytes)
       rfl
     exact writes_of_wt hpre (wt_connectionMade _) c b h
   | connFail k =>
-    exact writes_of_wt h0 (((wt_setPhase _ k .closed).trans (wt_emit _ .hConnFailed (by intro c b h; cases h))).trans
-      (wt_connectionFailed _)) c b h
+    simp only [step, connFail] at h ⊢
+    by_cases hp : (w.sess.withOuts []).pending = some k
+    · rw [if_pos hp] at h ⊢
+      exact writes_of_wt h0 ((((wt_withPending _ none).trans (wt_setPhase _ k .closed)).trans
+        (wt_emit _ .hConnFailed (by intro c b h; cases h))).trans (wt_connectionFailed _)) c b h
+    · rw [if_neg hp] at h ⊢
+      exact writes_of_wt h0 (wt_setPhase _ k .closed) c b h
   | chunk k d => exact writes_of_wt h0 (wt_drain U k _ _ _) c b h
   | lost k =>
     simp only [step, connLost] at h ⊢
@@ -335,17 +346,16 @@ theorem C12_writes_to_tracked (w : World) (e : Ev) (c : Nat) (b : Bytes)
 def liveCount (s : Sess) : Nat :=
   (s.conns.filter fun c => c.phase = .connecting ∨ c.phase = .connected).length
 
-/-- KNOWN FINDINGS, model side (replayed on the real code by the harness): three shortest histories after which two
-    attempts are in flight at once. -/
-theorem KF_C12_start_while_attempt_pending :
-    liveCount (run exU (bootWorld exCfg) [.boot, .manualStop, .manualStart]).sess = 2 := by decide
+/-- the three histories after which two attempts were in flight before the repair (former known findings): one now -/
+theorem C12_regression_start_while_attempt_pending :
+    liveCount (run exU (bootWorld exCfg) [.boot, .manualStop, .manualStart]).sess = 1 := by decide
 
-theorem KF_C12_retry_while_attempt_pending :
-    liveCount (run exU (bootWorld exCfg) [.boot, .advance 90, .fire .retry]).sess = 2 := by decide
+theorem C12_regression_retry_while_attempt_pending :
+    liveCount (run exU (bootWorld exCfg) [.boot, .advance 90, .fire .retry]).sess = 1 := by decide
 
-theorem KF_C12_idlehold_after_late_connection_lost :
+theorem C12_regression_idlehold_after_late_connection_lost :
     liveCount (run exU (bootWorld exCfg)
-      [.boot, .connOk 0, .chunk 0 exKeepalive, .advance 90, .fire .idleHold, .lost 0, .advance 90, .fire .idleHold]).sess = 2 := by
+      [.boot, .connOk 0, .chunk 0 exKeepalive, .advance 90, .fire .idleHold, .lost 0, .advance 90, .fire .idleHold]).sess = 1 := by
   decide
 
 end Yabgp
@@ -355,48 +365,49 @@ open Sess
 
 variable (U : Bool → Bytes → UpdClass)
 
-/-! ### at most one live connection, outside the recorded findings -/
-
-/-- the run avoids the recorded findings: every event is one the environment can produce, and no operator start,
-    connect-retry expiry or automatic start (idle-hold expiry, the deferred boot call) happens while a connection
-    attempt is still pending -/
-def CalmRun : World → List Ev → Prop
-  | _, [] => True
-  | w, e :: r => enabled w.sess e = true ∧ Core.calmC (core w.sess) e ∧ CalmRun (step U w e) r
+/-! ### at most one live connection -/
 
 theorem one_first (cfg : Cfg) (e0 : Ev) (he0 : e0 = .boot ∨ e0 = .manualStart) :
-    Core.One (core (step U (bootWorld cfg) e0).sess) := by
-  have hn : Core.NoLive (core ((boot cfg).withOuts [])) := by
+    Core.One (core (step U (bootWorld cfg) e0).sess) ∧ Core.Pend (core (step U (bootWorld cfg) e0).sess) := by
+  have hn : Core.NoLive (core ((boot cfg).withOuts [])).abortPending := by
+    intro j hj; simp [core, boot, withOuts, Core.abortPending] at hj
+  have hp0 : Core.Pend (core ((boot cfg).withOuts [])) := by
     intro j hj; simp [core, boot, withOuts] at hj
   rcases he0 with rfl | rfl
   · simp only [step, bootWorld]
     rw [core_autoStart]
-    simp only [Core.autoStart, core, boot, withOuts, ↓reduceIte, Bool.false_eq_true]
-    exact Core.one_connectTcp (hn.of_conns rfl)
+    have e : (core ((boot cfg).withOuts [])).autoStart false =
+        (((core ((boot cfg).withOuts [])).setRetry true).withSt .connect).connectTcp := by
+      simp [Core.autoStart, core, boot, withOuts]
+    rw [e]
+    exact ⟨Core.one_connectTcp (c := ((core ((boot cfg).withOuts [])).setRetry true).withSt .connect) hn,
+      Core.pend_connectTcp (c := ((core ((boot cfg).withOuts [])).setRetry true).withSt .connect) (hp0.of_conns rfl rfl)⟩
   · simp only [step, bootWorld]
     rw [core_manualStart]
-    simp only [Core.manualStart, core, boot, withOuts]
-    exact Core.one_connectTcp (hn.of_conns rfl)
+    have e : (core ((boot cfg).withOuts [])).manualStart =
+        ((((core ((boot cfg).withOuts [])).withAllow true).setRetry true).withSt .connect).connectTcp := by
+      simp [Core.manualStart, core, boot, withOuts]
+    rw [e]
+    exact ⟨Core.one_connectTcp (c := (((core ((boot cfg).withOuts [])).withAllow true).setRetry true).withSt .connect) hn,
+      Core.pend_connectTcp (c := (((core ((boot cfg).withOuts [])).withAllow true).setRetry true).withSt .connect) (hp0.of_conns rfl rfl)⟩
 
-theorem one_step (w : World) (e : Ev) (hen : enabled w.sess e = true) (hcalm : Core.calmC (core w.sess) e)
-    (h : Core.One (core w.sess)) (hh : Core.Heal (core w.sess)) : Core.One (core (step U w e).sess) :=
-  (core_step_inv U (fun c => Core.One c ∧ Core.Heal c)
-    (fun c hc o ho => ⟨Core.one_frameOutcome hc.1 o ho, Core.heal_frameOutcome hc.2 o ho⟩) w e hen
-    (fun hc he o ho => ⟨Core.one_stepOutcome hc.1 hc.2 e he hcalm o ho, Core.heal_stepOutcome hc.2 e he o ho⟩)
-    ⟨h, hh⟩).1
+theorem one_step (w : World) (e : Ev) (hen : enabled w.sess e = true)
+    (h : Core.One (core w.sess)) (hp : Core.Pend (core w.sess)) (hh : Core.Heal (core w.sess)) :
+    Core.One (core (step U w e).sess) ∧ Core.Pend (core (step U w e).sess) :=
+  let r := core_step_inv U (fun c => (Core.One c ∧ Core.Pend c) ∧ Core.Heal c)
+    (fun c hc o ho => ⟨⟨Core.one_frameOutcome hc.1.1 o ho, Core.pend_frameOutcome hc.1.2 o ho⟩, Core.heal_frameOutcome hc.2 o ho⟩) w e hen
+    (fun hc he o ho => ⟨Core.one_stepOutcome hc.1.1 hc.1.2 hc.2 e he o ho, Core.heal_stepOutcome hc.2 e he o ho⟩)
+    ⟨⟨h, hp⟩, hh⟩
+  r.1
 
-theorem calm_enabledRun (evs : List Ev) : ∀ w, CalmRun U w evs → EnabledRun U w evs := by
+theorem one_run (evs : List Ev) : ∀ (w : World), Core.One (core w.sess) → Core.Pend (core w.sess) → Core.Heal (core w.sess) →
+    EnabledRun U w evs → Core.One (core (run U w evs).sess) ∧ Core.Pend (core (run U w evs).sess) := by
   induction evs with
-  | nil => intro _ _; trivial
-  | cons e r ih => intro w h; exact ⟨h.1, ih _ h.2.2⟩
-
-theorem one_run (evs : List Ev) : ∀ (w : World), Core.One (core w.sess) → Core.Heal (core w.sess) → CalmRun U w evs →
-    Core.One (core (run U w evs).sess) := by
-  induction evs with
-  | nil => intro w h _ _; exact h
+  | nil => intro w h hp _ _; exact ⟨h, hp⟩
   | cons e r ih =>
-    intro w h hh hc
-    exact ih _ (one_step U w e hc.1 hc.2.1 h hh) (heal_step U w e hc.1 hh) hc.2.2
+    intro w h hp hh hc
+    have := one_step U w e hc.1 h hp hh
+    exact ih _ this.1 this.2 (heal_step U w e hc.1 hh) hc.2
 
 theorem filter_length_le_one {α : Type} (p : α → Bool) : ∀ (l : List α),
     (∀ i j (hi : i < l.length) (hj : j < l.length), p l[i] = true → p l[j] = true → i = j) → (l.filter p).length ≤ 1
@@ -417,21 +428,25 @@ theorem filter_length_le_one {α : Type} (p : α → Bool) : ∀ (l : List α),
       simp [List.filter_cons, hx, hnone]
     · simp [List.filter_cons, hx]; exact ih
 
-/-- **At most one connection or attempt, none left open and unreferenced** - for every history after the agent's start
-    that avoids the three recorded findings (`CalmRun`): any sequence of peer behaviour, failures, timers, operator
-    stops, and starts / retry expiries / automatic starts that do not find an attempt pending. -/
-theorem C12_at_most_one_calm (cfg : Cfg) (e0 : Ev) (he0 : e0 = .boot ∨ e0 = .manualStart) (evs : List Ev)
-    (hc : CalmRun U (step U (bootWorld cfg) e0) evs) :
+/-- **At most one connection or attempt, none left open and unreferenced** - in every state reachable after the agent's
+    start by any sequence of events the environment can produce. -/
+theorem C12_at_most_one (cfg : Cfg) (e0 : Ev) (he0 : e0 = .boot ∨ e0 = .manualStart) (evs : List Ev)
+    (hc : EnabledRun U (step U (bootWorld cfg) e0) evs) :
     liveCount (run U (bootWorld cfg) (e0 :: evs)).sess ≤ 1 ∧
-    ∀ j, j < (run U (bootWorld cfg) (e0 :: evs)).sess.conns.length →
+    (∀ j, j < (run U (bootWorld cfg) (e0 :: evs)).sess.conns.length →
       ((run U (bootWorld cfg) (e0 :: evs)).sess.conn j).phase = .connected →
-      (run U (bootWorld cfg) (e0 :: evs)).sess.proto = some j := by
-  have hone := one_run U evs _ (one_first U cfg e0 he0) (heal_first U cfg e0 he0) hc
+      (run U (bootWorld cfg) (e0 :: evs)).sess.proto = some j) ∧
+    (∀ j, j < (run U (bootWorld cfg) (e0 :: evs)).sess.conns.length →
+      ((run U (bootWorld cfg) (e0 :: evs)).sess.conn j).phase = .connecting →
+      (run U (bootWorld cfg) (e0 :: evs)).sess.pending = some j) := by
+  have h0 := one_first U cfg e0 he0
+  have hboth := one_run U evs _ h0.1 h0.2 (heal_first U cfg e0 he0) hc
   have hrun : run U (bootWorld cfg) (e0 :: evs) = run U (step U (bootWorld cfg) e0) evs := rfl
   rw [hrun]
-  generalize (run U (step U (bootWorld cfg) e0) evs).sess = s at hone
+  generalize (run U (step U (bootWorld cfg) e0) evs).sess = s at hboth
+  obtain ⟨hone, hpend⟩ := hboth
   have hlen : (core s).conns.length = s.conns.length := by simp [core]
-  constructor
+  refine ⟨?_, ?_, ?_⟩
   · unfold liveCount
     apply filter_length_le_one
     intro i j hi hj pi pj
@@ -447,23 +462,11 @@ theorem C12_at_most_one_calm (cfg : Cfg) (e0 : Ev) (he0 : e0 = .boot ∨ e0 = .m
   · intro j hj hph
     have := hone.tracked j (by rw [hlen]; exact hj) (by rw [core_conn]; exact hph)
     exact this.1
-
-/-- non-vacuity: a whole cycle - connect, a message that ends the session, idle-hold, reconnect - is a calm run -/
-example : CalmRun exU (step exU (bootWorld exCfg) .boot)
-    [.connOk 0, .chunk 0 exKeepalive, .advance 90, .fire .idleHold, .lost 0, .connOk 1] := by
-  have hc : (core (step exU (step exU (step exU (step exU (bootWorld exCfg) .boot) (.connOk 0)) (.chunk 0 exKeepalive))
-      (.advance 90)).sess).conns = [(.closing, true)] := by decide
-  refine ⟨by decide, trivial, by decide, trivial, by decide, trivial, by decide, ?_, by decide, trivial, by decide, trivial, trivial⟩
-  intro j hj
-  rw [hc] at hj
-  have : j = 0 := by simpa using hj
-  subst this
-  simp [Core.conn, hc]
+  · intro j hj hph
+    exact hpend j (by rw [hlen]; exact hj) (by rw [core_conn]; exact hph)
 
 end Yabgp
 
 #print axioms Yabgp.C12_writes_to_tracked
-#print axioms Yabgp.KF_C12_start_while_attempt_pending
-#print axioms Yabgp.KF_C12_retry_while_attempt_pending
-#print axioms Yabgp.KF_C12_idlehold_after_late_connection_lost
-#print axioms Yabgp.C12_at_most_one_calm
+#print axioms Yabgp.C12_regression_start_while_attempt_pending
+#print axioms Yabgp.C12_at_most_one
